@@ -37,6 +37,11 @@ package main
 // never shares storage with the right operand); a store into a nil map is accepted as
 // an error that changes nothing (Go) or as a new map holding the CONVERTED value bound
 // to the place (script). A slice expression `a[i:j]` is a place for reads and stores.
+//
+// Struct values come in several shapes side by side (c10ShapeOf): the same field names at
+// other positions, fewer fields, anonymous Go structs bound by the host through a pointer.
+// Literal expressions evaluated more than once (a script function returning a nested
+// literal that is called repeatedly, a literal in a loop body): c10_lit.go.
 
 import (
 	"fmt"
@@ -83,6 +88,33 @@ var (
 )
 
 const c10StructSrc = "make(struct{A int64, B string, C []int64, D map[string]int64, E interface, F float64, G bool})"
+
+// Further struct shapes: the same field names at OTHER positions, a shape with fewer
+// fields, and anonymous Go structs the host binds by pointer. A field is addressed by
+// its name within the struct's own type, whatever other struct types the process has
+// seen: several shapes live side by side in one history.
+var (
+	c10StructQT = reflect.StructOf([]reflect.StructField{
+		{Name: "D", Type: c10MapSIT}, {Name: "G", Type: c10BoolT}, {Name: "B", Type: c10StrT}, {Name: "A", Type: c10I64T}, {Name: "C", Type: c10I64SlT}})
+	c10StructRT = reflect.StructOf([]reflect.StructField{{Name: "F", Type: c10F64T}, {Name: "A", Type: c10I64T}})
+	c10StructHT = reflect.StructOf([]reflect.StructField{
+		{Name: "B", Type: c10StrT}, {Name: "E", Type: c10IfaceT}, {Name: "A", Type: c10I64T}, {Name: "C", Type: c10I64SlT}})
+	c10StructGT = reflect.StructOf([]reflect.StructField{{Name: "C", Type: c10I64SlT}, {Name: "A", Type: c10I64T}, {Name: "D", Type: c10MapSIT}})
+)
+
+type c10Shape struct {
+	src  string // script source of the value; "" for a host value
+	t    reflect.Type
+	host bool
+}
+
+var c10ShapeOf = map[string]c10Shape{
+	"st": {c10StructSrc, c10StructT, false},
+	"sq": {"make(struct{D map[string]int64, G bool, B string, A int64, C []int64})", c10StructQT, false},
+	"sr": {"make(struct{F float64, A int64})", c10StructRT, false},
+	"hp": {"", c10StructHT, true},
+	"hq": {"", c10StructGT, true},
+}
 
 // c10Val is a script value: its source spelling and the model's Go value.
 type c10Val struct {
@@ -178,8 +210,10 @@ func c10Class(v reflect.Value) string {
 	return "scalar"
 }
 
+// c10Unwrap strips interface boxes; a pointer to a struct (the host's struct values are
+// handed to the script by pointer) is followed to the struct.
 func c10Unwrap(v reflect.Value) reflect.Value {
-	for v.IsValid() && v.Kind() == reflect.Interface {
+	for v.IsValid() && (v.Kind() == reflect.Interface || (v.Kind() == reflect.Ptr && v.Type().Elem().Kind() == reflect.Struct)) {
 		if v.IsNil() {
 			return reflect.Value{}
 		}
@@ -504,6 +538,7 @@ type c10Hist struct {
 	nMut  int
 	nErr  int
 	dead  bool
+	facts []c10Factory // script functions returning a literal (c10_lit.go)
 }
 
 func newC10Hist(c *wk.Case) *c10Hist {
@@ -629,6 +664,7 @@ type c10Op struct {
 	hasVal  bool
 	vals    func() []reflect.Value // acceptable results (evaluated after commit)
 	itag    string
+	pre     func() // host-side action run before the source (binding a host value)
 }
 
 func (h *c10Hist) input(op *c10Op) map[string]interface{} {
@@ -667,6 +703,9 @@ func (h *c10Hist) exec(op *c10Op) bool {
 	}
 	c := h.c
 	c.Begin(map[string]interface{}{"n": len(h.log), "src": op.src})
+	if op.pre != nil {
+		op.pre()
+	}
 	o := ank.Exec(h.env, op.src)
 	h.log = append(h.log, op.src)
 	c.Events(1)
@@ -793,6 +832,10 @@ const (
 	// delete(m, k) with an unhashable / ill-typed key reports no error when m is a nil map
 	// (runDeleteStmt returns before it looks at the key)
 	c10PendingFix_DeleteNilMapBadKey = false
+	// C10-r4-genuine.md: `x = l[0]` / `x = m[k]` where the element is a struct value binds x to a
+	// struct that is not addressable: every `x.F = v` fails with "struct member 'F' cannot be
+	// assigned" although the field accepts the value (fixed history 21)
+	c10PendingFix_StructFromElement = false
 )
 
 // opInit: `name = <fresh value>`.
@@ -807,11 +850,25 @@ func (h *c10Hist) opInit(name string, v c10Val) *c10Op {
 // are equivalent to nil ones for every operation generated here (the walker
 // compares len/cap/contents, not nil-ness).
 func (h *c10Hist) opInitStruct(name string) *c10Op {
-	return &c10Op{src: name + " = " + c10StructSrc, opk: "init", ck: "struct", pk: "var", mut: true,
+	sh := c10ShapeOf[name]
+	if sh.host {
+		// the host binds a pointer to a zero anonymous Go struct (nil slice / map fields on both sides)
+		ptr := reflect.New(sh.t)
+		return &c10Op{src: "# host: env.Define(\"" + name + "\", &" + sh.t.String() + "{})", opk: "init", ck: "host-struct", pk: "var", mut: true,
+			pre:    func() { _ = h.env.Define(name, ptr.Interface()) },
+			commit: func(reflect.Value) { h.declare(name, reflect.New(sh.t).Elem()) }}
+	}
+	return &c10Op{src: name + " = " + sh.src, opk: "init", ck: "struct", pk: "var", mut: true,
 		commit: func(reflect.Value) {
-			sv := reflect.New(c10StructT).Elem()
-			sv.FieldByName("C").Set(reflect.MakeSlice(c10I64SlT, 0, 0))
-			sv.FieldByName("D").Set(reflect.MakeMap(c10MapSIT))
+			sv := reflect.New(sh.t).Elem()
+			for i := 0; i < sh.t.NumField(); i++ {
+				switch ft := sh.t.Field(i).Type; ft.Kind() {
+				case reflect.Slice:
+					sv.Field(i).Set(reflect.MakeSlice(ft, 0, 0))
+				case reflect.Map:
+					sv.Field(i).Set(reflect.MakeMap(ft))
+				}
+			}
 			h.declare(name, sv)
 		}}
 }
@@ -1629,7 +1686,7 @@ func (h *c10Hist) opFieldWrite(root, f string, v c10Val) *c10Op {
 var c10NameType = map[string]reflect.Type{
 	"a": c10USliceT, "b": c10USliceT, "c": c10USliceT, "m": c10UMapT, "n": c10UMapT, "s": c10StrT, "t": c10StrT,
 	"ts": c10I64SlT, "tt": c10I64SlT, "tf": c10F64SlT, "tl": c10StrSlT, "tm": c10MapSIT, "tn": c10MapSIT, "tk": c10MapISt,
-	"st": c10StructT,
+	"st": c10StructT, "sq": c10StructQT, "sr": c10StructRT, "hp": c10StructHT, "hq": c10StructGT,
 	"ti": c10I32SlT, "tb": c10U8SlT, "tg": c10F32SlT,
 	"nm": c10MapSlT, "tp": c10MapSFT, "tq": c10MapSFT, "ns": c10SlSlT, "nu": c10USlSlT,
 }
@@ -1646,11 +1703,17 @@ var c10Profiles = [][]string{
 	// slices whose zero elements are nil maps / nil slices, names and struct fields bound to them
 	{"ns", "ts", "tt", "nm", "tp", "tq", "st"},
 	{"nu", "a", "b", "ns", "ts", "nm", "tp"},
+	// several struct shapes side by side: script-made (st; sq = permuted fields; sr = two fields)
+	// and anonymous Go structs bound by the host through a pointer (hp, hq)
+	{"st", "sq", "sr", "ts", "tm", "a"},
+	{"hp", "hq", "st", "sr", "ts", "tm", "s"},
+	{"sq", "hp", "sr", "tt", "tm", "m"},
 }
 
 type c10Gen struct {
 	h     *c10Hist
 	names []string
+	lits  bool // the history evaluates literal nodes repeatedly (c10_lit.go)
 }
 
 func (g *c10Gen) rn(n int) int { return g.h.c.Rng.Intn(n) }
@@ -2063,9 +2126,19 @@ func (g *c10Gen) place() c10Place {
 		if g.rn(100) < 45 {
 			return c10P(root)
 		}
-		fs := []string{"C", "D", "B"}
-		if e := c10Unwrap(cur.FieldByName("E")); e.IsValid() && (e.Kind() == reflect.Slice || e.Kind() == reflect.Map || e.Kind() == reflect.String) {
-			fs = append(fs, "E")
+		var fs []string
+		for _, f := range []string{"C", "D", "B"} {
+			if _, ok := cur.Type().FieldByName(f); ok {
+				fs = append(fs, f)
+			}
+		}
+		if _, ok := cur.Type().FieldByName("E"); ok {
+			if e := c10Unwrap(cur.FieldByName("E")); e.IsValid() && (e.Kind() == reflect.Slice || e.Kind() == reflect.Map || e.Kind() == reflect.String) {
+				fs = append(fs, "E")
+			}
+		}
+		if len(fs) == 0 {
+			return c10P(root)
 		}
 		return c10Place{root: root, sel: 'f', f: fs[g.rn(len(fs))]}
 	case reflect.Slice:
@@ -2078,7 +2151,7 @@ func (g *c10Gen) place() c10Place {
 			i := g.rn(cur.Len() + 1)
 			return c10Place{root: root, sel: 's', i: i, j: i + g.rn(cur.Len()-i+1)}
 		}
-		if cur.Type() == c10USliceT && g.rn(100) < 15 {
+		if cur.Type() == c10USliceT && (g.rn(100) < 15 || (g.lits && g.rn(100) < 30)) {
 			var idx []int
 			for i := 0; i < cur.Len(); i++ {
 				if e := c10Unwrap(cur.Index(i)); e.IsValid() && (e.Kind() == reflect.Slice || e.Kind() == reflect.Map || e.Kind() == reflect.String) {
@@ -2090,7 +2163,7 @@ func (g *c10Gen) place() c10Place {
 			}
 		}
 	case reflect.Map:
-		if cur.Type() == c10UMapT && g.rn(100) < 15 {
+		if cur.Type() == c10UMapT && (g.rn(100) < 15 || (g.lits && g.rn(100) < 30)) {
 			var ks []c10Val
 			it := cur.MapRange()
 			for it.Next() {
@@ -2212,6 +2285,9 @@ func (g *c10Gen) dest(t reflect.Type) string { return g.pickName(t) }
 // op draws one operation on the current state.
 func (g *c10Gen) op() *c10Op {
 	h := g.h
+	if g.lits && g.rn(100) < 14 {
+		return g.litOp()
+	}
 	p := g.place()
 	cont := h.mget(p)
 	if !cont.IsValid() {
@@ -2221,15 +2297,19 @@ func (g *c10Gen) op() *c10Op {
 	r := g.rn(100)
 	switch cont.Kind() {
 	case reflect.Struct:
-		f := c10FieldNames[g.rn(len(c10FieldNames))]
-		if g.rn(100) < 12 {
+		// a field of this shape; now and then a name no shape has, or a name only OTHER shapes have
+		f := cont.Type().Field(g.rn(cont.NumField())).Name
+		if g.rn(100) < 14 {
 			f = []string{"Z", "a", "Cc", "b"}[g.rn(4)]
+			if g.rn(2) == 0 {
+				f = c10FieldNames[g.rn(len(c10FieldNames))]
+			}
 		}
 		if r < 35 {
 			return h.opFieldRead(p.root, f)
 		}
 		ft := c10IfaceT
-		if sf, ok := c10StructT.FieldByName(f); ok {
+		if sf, ok := cont.Type().FieldByName(f); ok {
 			ft = sf.Type
 		}
 		return h.opFieldWrite(p.root, f, g.valFor(ft))
@@ -2385,7 +2465,7 @@ func c10RunRandom(c *wk.Case) {
 	c.Tag("profile:" + strings.Join(g.names, ","))
 	for _, n := range g.names {
 		var op *c10Op
-		if c10NameType[n] == c10StructT {
+		if _, isStruct := c10ShapeOf[n]; isStruct {
 			op = h.opInitStruct(n)
 		} else {
 			op = h.opInit(n, g.initVal(n))
@@ -2393,6 +2473,17 @@ func c10RunRandom(c *wk.Case) {
 		if !h.exec(op) {
 			h.finish()
 			return
+		}
+	}
+	if g.pickName(c10USliceT) != "" && c.Rng.Intn(100) < 40 {
+		// script functions returning a nested literal: every call evaluates the same literal node again
+		g.lits = true
+		c.Tag("literal-functions")
+		for i, n := 0, 1+c.Rng.Intn(2); i < n; i++ {
+			if !h.exec(h.opDefFactory(g.nestedLit(g.pickName(c10UMapT) != "" && c.Rng.Intn(3) == 0), c.Rng.Intn(3))) {
+				h.finish()
+				return
+			}
 		}
 	}
 	nops := 10 + c.Rng.Intn(31)
@@ -2713,6 +2804,112 @@ var c10Fixed = []func(h *c10Hist, do func(*c10Op)){
 			do(h.opRead(c10Place{root: "ns", sel: 'i', i: 2}, c10IdxInt(1, "fixed"), false))
 		}
 	},
+	// 18: a script function returning a nested literal is called again and again (one
+	// literal node, many evaluations): every result is a value of its own at every level
+	func(h *c10Hist, do func(*c10Op)) {
+		el := func(r string, i int) c10Place { return c10Place{root: r, sel: 'i', i: i} }
+		fx := func(n int64) c10Idx { return c10IdxInt(n, "fixed") }
+		do(h.opDefFactory(c10LL(c10LL(c10LI(0), c10LI(0)), c10LL(c10LI(0), c10LI(0))), 0))
+		do(h.opLitCall("a", 0))
+		do(h.opWrite(el("a", 0), fx(0), c10Int(7), false))
+		do(h.opWrite(el("a", 1), fx(1), c10Int(8), false))
+		do(h.opLitCall("b", 0))
+		do(h.opRead(el("b", 0), fx(0), false))
+		do(h.opWrite(el("b", 1), fx(0), c10Str("w"), true))
+		do(h.opLitCall("c", 0))
+		do(h.opRead(el("a", 1), fx(0), false))
+		do(h.opDefFactory(c10LM(c10Str("k"), c10LL(c10LI(1)), c10Str("m"), c10LM(c10Str("x"), c10LI(1))), 1))
+		do(h.opLitCall("m", 1))
+		do(h.opWrite(c10Place{root: "m", sel: 'k', k: c10Str("k")}, fx(0), c10Int(5), false))
+		do(h.opMapWrite(c10Place{root: "m", sel: 'k', k: c10Str("m")}, c10Str("x"), c10Int(6), false, false))
+		do(h.opLitCall("n", 1))
+		do(h.opRead(c10Place{root: "n", sel: 'k', k: c10Str("k")}, fx(0), false))
+		do(h.opMapRead(c10Place{root: "n", sel: 'k', k: c10Str("m")}, c10Str("x"), false, false))
+		do(h.opDelete(c10Place{root: "n", sel: 'k', k: c10Str("m")}, c10Str("x"), false))
+		do(h.opLitCall("m", 1))
+		do(h.opDefFactory(c10LL(c10LS("r"), c10LT(1, 2), c10LTM("k1", 1), c10LL(c10LL(c10LI(3)))), 2))
+		do(h.opLitCall("a", 2))
+		do(h.opWrite(el("a", 1), fx(0), c10Int(9), false))
+		do(h.opMapWrite(el("a", 2), c10Str("k1"), c10Int(4), false, false))
+		do(h.opWrite(el("a", 3), fx(0), c10Int(2), false))
+		do(h.opLitCall("b", 2))
+		do(h.opRead(el("b", 1), fx(0), false))
+		do(h.opLitCall("c", 0))
+	},
+	// 19: a literal in a loop body: every pass stores into a value of its own
+	func(h *c10Hist, do func(*c10Op)) {
+		ix := func(i int) c10LitSel { return c10LitSel{idx: i} }
+		ky := func(k string) c10LitSel { return c10LitSel{key: c10Str(k), isKey: true} }
+		do(h.opLitLoop("a", c10LL(c10LS("r"), c10LL(c10LI(0))), 3,
+			[]c10LitStore{{path: []c10LitSel{ix(1)}, sel: ix(0), inc: true}}, false))
+		do(h.opLitLoop("b", c10LL(c10LL(c10LI(0), c10LI(0)), c10LL(c10LI(0), c10LI(0))), 2,
+			[]c10LitStore{{path: []c10LitSel{ix(0)}, sel: ix(0), v: c10Int(7)}, {path: []c10LitSel{ix(1)}, sel: ix(1), v: c10Str("x")}}, false))
+		do(h.opLitLoop("c", c10LL(c10LL(c10LI(1), c10LI(2))), 3, nil, false))
+		do(h.opWrite(c10Place{root: "c", sel: 'i', i: 0}, c10IdxInt(0, "fixed"), c10Int(5), false))
+		do(h.opLitLoop("a", c10LM(c10Str("k"), c10LL(c10LI(1)), c10Str("m"), c10LM(c10Str("x"), c10LI(1))), 3,
+			[]c10LitStore{{path: []c10LitSel{ky("m")}, sel: ky("x"), inc: true}, {path: []c10LitSel{ky("k")}, sel: ix(0), v: c10Nil()}}, false))
+		do(h.opLitLoop("b", c10LL(c10LT(1, 2), c10LTM("k1", 1), c10LL(c10LL(c10LI(3)))), 2,
+			[]c10LitStore{{path: []c10LitSel{ix(0)}, sel: ix(1), inc: true}, {path: []c10LitSel{ix(1)}, sel: ky("k1"), v: c10Int(4)},
+				{path: []c10LitSel{ix(2), ix(0)}, sel: ix(0), v: c10Float(1.5)}}, false))
+		do(h.opLitLoop("c", c10LL(c10LL(c10LI(0)), c10LI(1)), 3,
+			[]c10LitStore{{path: []c10LitSel{ix(0)}, sel: ix(0), inc: true}, {sel: ix(1), inc: true}}, true))
+	},
+	// 20: struct shapes side by side: the same field names at other positions (sq), fewer
+	// fields (sr), anonymous Go structs of the host (hp, hq). A field reads back what was
+	// last stored in it, a name the shape does not have is an error - whatever the other
+	// shapes look like
+	func(h *c10Hist, do func(*c10Op)) {
+		for _, n := range []string{"st", "sq", "sr", "hp", "hq"} {
+			do(h.opInitStruct(n))
+		}
+		do(h.opInit("ts", c10I64Lit(1, 2, 3)))
+		do(h.opFieldWrite("st", "A", c10Int(3)))
+		do(h.opFieldWrite("st", "B", c10Str("q")))
+		do(h.opFieldRead("st", "A"))
+		do(h.opFieldRead("st", "C"))
+		do(h.opFieldRead("st", "G"))
+		for _, n := range []string{"sq", "sr", "hp", "hq", "st"} {
+			do(h.opFieldWrite(n, "A", c10Int(4)))
+			do(h.opFieldRead(n, "A"))
+			do(h.opFieldRead(n, "B"))
+			do(h.opFieldWrite(n, "B", c10Str("zz")))
+			do(h.opFieldRead(n, "A"))
+			do(h.opFieldWrite(n, "C", h.ref("ts")))
+			do(h.opFieldRead(n, "C"))
+			do(h.opFieldWrite(n, "F", c10Float(2.5)))
+			do(h.opFieldRead(n, "F"))
+			do(h.opFieldRead(n, "G"))
+			do(h.opFieldWrite(n, "G", c10Bool(true)))
+			do(h.opFieldRead(n, "D"))
+			do(h.opFieldWrite(n, "E", c10Str("e")))
+			do(h.opFieldRead(n, "E"))
+			do(h.opFieldWrite(n, "A", c10Str("x")))
+			do(h.opFieldRead(n, "A"))
+		}
+		do(h.opWrite(c10Place{root: "hq", sel: 'f', f: "C"}, c10IdxInt(0, "fixed"), c10Int(9), false))
+		do(h.opRead(c10Place{root: "sq", sel: 'f', f: "C"}, c10IdxInt(0, "fixed"), false))
+		do(h.opMapWrite(c10Place{root: "sq", sel: 'f', f: "D"}, c10Str("k1"), c10Int(1), false, false))
+		do(h.opMapWrite(c10Place{root: "hq", sel: 'f', f: "D"}, c10Str("k1"), c10Int(1), false, false))
+	},
+	// 21: a struct value read out of an untyped list / map element and bound to a name:
+	// its fields are stored and read back through that name (what happens to the element
+	// is the excluded copy-or-alias question: the list is not part of the model)
+	func(h *c10Hist, do func(*c10Op)) {
+		if c10PendingFix_StructFromElement {
+			do(h.opInit("a", c10USlice(c10Int(1))))
+			return
+		}
+		for i, src := range []string{"c10l = [" + c10ShapeOf["sr"].src + "]\nsr = c10l[0]", "c10m = {\"k\": " + c10ShapeOf["sq"].src + "}\nsq = c10m[\"k\"]"} {
+			n := []string{"sr", "sq"}[i]
+			do(&c10Op{src: src, opk: "struct-from-element", ck: "struct", pk: "var", mut: true,
+				commit: func(reflect.Value) { h.declare(n, reflect.New(c10ShapeOf[n].t).Elem()) }})
+			do(h.opFieldWrite(n, "A", c10Int(2)))
+			do(h.opFieldRead(n, "A"))
+			do(h.opFieldWrite(n, "A", c10Str("x")))
+			do(h.opFieldWrite(n, "Z", c10Int(1)))
+			do(h.opFieldRead(n, "A"))
+		}
+	},
 }
 
 func c10NestedHistory(h *c10Hist, do func(*c10Op), typed bool) {
@@ -2970,13 +3167,16 @@ func init() {
 			}
 			return fw.Plan{
 				Level: "exploration",
-				Rule:  "one evaluation = one history: a fresh environment, 3-8 container variables (one of 9 profiles) and 10-40 operations, each its own vm.Execute call; after every operation every variable is fetched with env.Get and walked against a native Go model (types, contents, len, cap, storage sharing through a live<->model element-address bijection); containers include typed numeric slices of five element types, nil typed maps / nil typed slices (zero elements of make([]map..) / make([][]T..), names and struct fields bound to nil) and slice expressions as the left operand of a store; an operation the Go model rejects must report an error and leave every container unchanged. A history is non-trivial when >=3 operations ran and >=1 mutated a container; distinct = distinct operation text.",
+				Rule:  "one evaluation = one history: a fresh environment, 3-8 container variables (one of 12 profiles) and 10-40 operations, each its own vm.Execute call; after every operation every variable is fetched with env.Get and walked against a native Go model (types, contents, len, cap, storage sharing through a live<->model element-address bijection); containers include typed numeric slices of five element types, nil typed maps / nil typed slices (zero elements of make([]map..) / make([][]T..), names and struct fields bound to nil) and slice expressions as the left operand of a store; struct values of five shapes side by side (the same field names at other positions, a two-field shape, anonymous Go structs bound by the host through a pointer; fields of other shapes are unknown fields); in 40% of the histories with an untyped slice 1-2 script functions returning a random nested literal (lists, maps, typed literals, depth <= 3) are defined once and called again and again, and loops evaluate a literal in their body 2-4 times with in-place stores (`=`, `+= 1`) into inner containers - the Go model builds fresh storage for every evaluation of a literal; an operation the Go model rejects must report an error and leave every container unchanged. A history is non-trivial when >=3 operations ran and >=1 mutated a container; distinct = distinct operation text.",
 				Assumptions: []string{
 					"Go's own slice/map/string operations (through reflect) are the reference; capacity after a growing append is adopted from the live object",
 					"numeric-string indices only as decimal numerals with a leading zero (accepted: error, or what the integer does); not generated: float/bool indices, reslice high bound in (len,cap], struct value copies, `in` on maps/strings, multi-byte string-position stores, int->string and nil->typed-slot stores",
 					"accepted both ways: []interface{} / []float64 stored into a []int64 field (element-wise copy or error); missing key of a typed map reads nil or the zero value; a key a typed map cannot hold reads nil or errors; a store of a convertible value into a NIL typed map (error leaving everything unchanged, or a new map with the converted value bound to the place)",
 					"typed numeric slices []int32 / []byte / []float32: stores only of values the element type can hold (wrapping integer stores, string->byte/rune, []byte/[]rune->string not generated); `in` with a numeric needle of another Go type than the elements is judged only when the needle denotes a number that no element denotes (then it must be false); nil against a nil typed slice/map element is not judged",
-					"kept out until /repo is repaired (C10-genuine.md, constants c10PendingFix_*): a store at index len through a slice expression `a[i:j][len] = v`; `ns += [ts]` on a typed slice of slices (copies ts instead of referencing it); delete with an unusable key on a nil map; also not generated: a nil inside a list appended to a typed slice, an empty list of an unappendable type",
+					"a literal expression is Go's composite literal: every evaluation yields fresh storage at every nesting level; literal functions and loops are the only operations that evaluate one expression node more than once (stores below a loop's literal are in range or map entries, never at index len)",
+					"struct shapes: script-made structs start with empty slice / map fields, host structs with nil ones; the struct type built by the model with reflect.StructOf is the type the script's make(struct{...}) yields; a random (non-fixed) history of a process-wide defect may need the earlier cases of its worker process to reproduce",
+					"kept out until /repo is repaired (C10-r4-genuine.md, c10PendingFix_StructFromElement): fields of a struct value read out of an untyped list / map element and bound to a name (fixed history 21); " +
+						"repaired in /repo and generated again (C10-genuine.md, the other c10PendingFix_* constants are false): a store at index len through a slice expression `a[i:j][len] = v`; `ns += [ts]` on a typed slice of slices; delete with an unusable key on a nil map; not generated: a nil inside a list appended to a typed slice, an empty list of an unappendable type",
 				},
 				Phases: []fw.Phase{
 					{Name: "fixed", Cases: len(c10Fixed), Chunk: len(c10Fixed), TimeoutS: 300},
